@@ -54,7 +54,7 @@ var c18Shapes = map[string][]bool{ // true = permit
 	"single-permit":  {true},
 }
 var c18ShapeOrder = []string{"none", "only-permits", "only-denies", "permits-denies", "deny-in-middle", "single-deny", "single-permit"}
-var c18PartCombos = []string{"v4", "v4+v6", "v4+raw", "v4+v6+raw", "v6+raw", "raw"}
+var c18PartCombos = []string{"v4", "v4+v6", "v4+raw", "v4+v6+raw", "v6+raw", "raw", "v6"}
 var c18AppModes = []string{"noappend", "onlyappend", "both"}
 
 // Raw line patterns (permit?) for prepend and append sections.
@@ -252,14 +252,22 @@ func buildC18(model, parts, shape, appMode string, variant int) *c18Case {
 			c.Files["router.raw"] = raw
 		}
 	case "PAN-OS":
+		// With an odd variant every part also carries a second vsys with
+		// one rule of its own.
+		twoVsys := variant%2 == 1
+		extraRule := func(part string, isApp bool) string { return "" }
 		vs := func(rules string, withName bool) string {
 			dn := ""
 			if withName {
 				dn = "<display-name>netspoc</display-name>"
 			}
+			second := ""
+			if twoVsys {
+				second = `<entry name="vsys3">` + dn + `<rulebase><security><rules>` + extraRule("", false) + `</rules></security></rulebase></entry>`
+			}
 			return `<config><devices><entry name="localhost.localdomain"><vsys><entry name="vsys2">` + dn +
 				`<rulebase><security><rules>` + rules + `</rules></security></rulebase>` +
-				`</entry></vsys></entry></devices></config>` + "\n"
+				`</entry>` + second + `</vsys></entry></devices></config>` + "\n"
 		}
 		rule := func(name string, permit, isApp bool) string {
 			a := ""
@@ -272,7 +280,17 @@ func buildC18(model, parts, shape, appMode string, variant int) *c18Case {
 				`<service><member>any</member></service><application><member>any</member></application>` + a + `</entry>`
 		}
 		c.Device = vs("", true)
+		curPart := ""
+		extraRule = func(string, bool) string {
+			if curPart == "" {
+				return ""
+			}
+			name := fmt.Sprintf("x3%s%d", curPart, uid())
+			add("[@name='"+name+"']", curPart, false, true, "vsys3", 0)
+			return rule(name, true, false)
+		}
 		if hasV4 {
+			curPart = "v4"
 			s := ""
 			for i, p := range v4Shape {
 				// Netspoc's PAN-OS rulebase has no explicit deny rules.
@@ -284,6 +302,7 @@ func buildC18(model, parts, shape, appMode string, variant int) *c18Case {
 			c.Files["router"] = vs(s, false)
 		}
 		if hasV6 {
+			curPart = "v6"
 			s := ""
 			for i := 0; i < 2; i++ {
 				name := fmt.Sprintf("v6r%d", uid())
@@ -293,6 +312,7 @@ func buildC18(model, parts, shape, appMode string, variant int) *c18Case {
 			c.Files["ipv6/router"] = vs(s, false)
 		}
 		if hasRaw {
+			curPart = "raw"
 			s := ""
 			for i, p := range pre {
 				name := fmt.Sprintf("rawpre%d", uid())
